@@ -157,12 +157,33 @@ def run(tier):
         ncmp += 1
         if cs != o:
             note(asmcheck.klass('spell:%s' % kind, x), t, '%r assembles to %s but its %s respelling %r to %s' % (x['intel'], list(o)[:4], kind, t, ('an exception' if cs == ('E',) else list(cs)[:4])))
+    # structured Intel / AT&T pairs over the whole base x index x scale x displacement grid of 32-bit memory operands (base = index included:
+    # the multiply-by-3/5/9 idiom); the two spellings of one operand must give the same candidate set
+    regs = ['eax', 'ebx', 'ecx', 'edx', 'esi', 'edi', 'ebp']
+    gp = []
+    for b_ in regs:
+        for i_ in regs:
+            for s_ in (1, 2, 4, 8):
+                for d_ in (None, 8, -4, 256):
+                    it = '[%s+%s%s%s]' % (b_, i_, ('*%d' % s_ if s_ > 1 else ''), ('' if d_ is None else '%+d' % d_))
+                    at = '%s(%%%s,%%%s%s)' % ('' if d_ is None else str(d_), b_, i_, (',%d' % s_ if s_ > 1 else ''))
+                    gp.append(('lea edx, %s' % it, 'leal %s, %%edx' % at))
+                    if (b_, s_) in (('ebx', 2), ('esi', 4)): gp.append(('add eax, DWORD PTR %s' % it, 'addl %s, %%eax' % at))
+    gres = ctx.asm([q for a_, b2 in gp for q in (('i', a_), ('a', b2))])
+    for k, (a_, b2) in enumerate(gp):
+        x_, y_ = gres[2 * k], gres[2 * k + 1]
+        cx = ('E',) if isinstance(x_, tuple) else tuple(sorted(set(x_))); cy = ('E',) if isinstance(y_, tuple) else tuple(sorted(set(y_)))
+        ncmp += 1
+        if cx != cy:
+            same = 'base=index' if re.search(r'\[(\w+)\+\1', a_) else 'base,index'
+            note('spell:att-grid:%s' % same, b2, '%r assembles to %s but its AT&T spelling %r to %s' % (a_, ('an exception' if cx == ('E',) else list(cx)[:4]), b2, ('an exception' if cy == ('E',) else list(cy)[:4])))
+    chk.cov['att_grid_pairs'] = len(gp)
     chk.cov['operand_algebra_correspondence_cases'] = ntie
     chk.cov['evaluations'] = len(lines) + ntie; chk.cov['spelling_pairs_compared'] = ncmp; chk.cov['base_lines'] = len(sel)
     chk.cov['distinct_nontrivial'] = ncmp; chk.cov['traces_validated_against_impl'] = len(lines)
     asmcheck.report(chk, bad)
     chk.cov['rule'] = ('%d base string(s) per (mnemonic, feature) class; Intel rendering vs its respellings: register case, keyword case, spacing, hex / HEX / decimal numbers, -1 vs 0xFFFFFFFF at 32 bits, '
-                       '[b+i*s] vs [i*s+b], [r+d] vs [d+r] vs d[r], st vs st(0), optional %% before registers, AT&T transliteration (the library rendering); candidate SETS must be equal; each line also assembled in reverse process order. '
+                       '[b+i*s] vs [i*s+b], [r+d] vs [d+r] vs d[r], st vs st(0), optional %% before registers, AT&T transliteration (the library rendering), and a grid of Intel / AT&T spellings of [base+index*scale+disp] over 7 x 7 registers (base = index included) x 4 scales x 4 displacements; candidate SETS must be equal; each line also assembled in reverse process order. '
                        'Non-trivial = compared pair') % per
     chk.cov['samples'] = [dict(kind=k, line=t) for (x, k, t) in meta[::max(1, len(meta) // 6)][:6]]
     return chk.finish(assumptions=['the AT&T transliteration of a line is the library AT&T rendering of the same decoded instruction (validated by C09)'])
